@@ -145,6 +145,20 @@ CHECKS["C14"] = dict(
     design="8/C14",
     note=TRUST + "generator block sizes and Horton row order by contract (exhaustively checked natively); the order loop is executed for three blocks.",
     technique="contract-based deductive verification: AST symbolic execution with callee contracts + reduction matching, z3; exhaustive/bounded native layer as labelled stand-in")
+CHECKS["C18"] = dict(
+    category="proof",
+    text="MultiDomainGrid with symbolic grid sizes, data, integrand and chunk size (number of domains instantiated: 1-3 grids of mixed 1-D/3-D "
+         "points, 1-3 repeats of one grid): the generator _chunked_iterator is verified against its per-resumption contract (while-loop cut point, "
+         "obligations at every yield); integrate(non_vectorized=True): loop invariant 'both chunk cursors agree, integral = prefix of the flattened "
+         "product sum' with the chunk reduction matched to the specification sum, hence chunk-size independence; vectorised route: loop invariant "
+         "over the pre-combinations, partial integral over the last domain matched (scaled by the pre-weight) to a block of the flattened sum via "
+         "mixed-radix lemmas; size / num_domains / points / weights enumerate the same digits in the same order; the enumeration is a bijection "
+         "onto the index box; constructor argument checks. itertools.product/islice by contract. Bounded layer: all size combinations up to 6 per "
+         "domain, 1-4 domains, every chunk size, exact integer family.",
+    design="8/C18",
+    note=TRUST + "itertools.product / islice contracts assumed (lexicographic order, laziness); finite-sum algebra (extensionality, homogeneity, range split) "
+         "in the reduction matcher; integrand vectorises over its last argument; number of domains is instantiated, not symbolic.",
+    technique="contract-based deductive verification: AST symbolic execution with lazy symbolic sequences, loop/generator contracts (cut points), reduction matching, NIA lemma chains, z3; exhaustive small-size native layer as labelled stand-in")
 BOUNDED_ONLY = {
     "C09": ("8/C09", "band-limited decomposition/interpolation on atomic grids: angular integration, radial-component splines through knots, interpolant reproduces grid values, derivative self-consistency, polynomial reproduction, molecular interpolation"),
     "C07": ("8/C07", "molecular grid = weighted concatenation of atomic grids: index table, segments, weights = atweights x aim, views with store on/off, fan-out of from_size/from_preset/from_pruned against hand-built grids, default radial grids, end-to-end 1% clause on presets"),
